@@ -160,14 +160,10 @@ class Stochastic(BigSMILESbase):
     def generate_string(self, extension):
         string = "{"
         string += self.left_terminal.generate_string(extension)
-        for token in self.repeat_tokens:
-            string += token.generate_string(extension) + ", "
-        string = string[:-2]
+        string += ", ".join(token.generate_string(extension) for token in self.repeat_tokens)
         if len(self.end_tokens) > 0:
             string += "; "
-            for token in self.end_tokens:
-                string += token.generate_string(extension) + ", "
-            string = string[:-2]
+            string += ", ".join(token.generate_string(extension) for token in self.end_tokens)
         string += self.right_terminal.generate_string(extension)
         string += "}"
         if self.distribution:
